@@ -159,17 +159,17 @@ const SIGNS2: [&str; 4] = ["++", "-+", "+-", "--"];
 fn angle_strat() -> BoxedStrategy<f64> {
     let pi = std::f64::consts::PI;
     prop_oneof![
-        8 => (-pi..pi),
+        8 => -pi..pi,
         1 => (-4i32..=4, -1e-3f64..1e-3).prop_map(|(m, e)| m as f64 * std::f64::consts::FRAC_PI_2 + e),
         1 => (-4i32..=4).prop_map(|m| m as f64 * std::f64::consts::FRAC_PI_2),
-        1 => (-4.0 * pi..4.0 * pi),
+        1 => -4.0 * pi..4.0 * pi,
     ]
     .boxed()
 }
 /// translations: ordinary, spread over the exponent range, +-0
 fn tr_strat() -> BoxedStrategy<f64> {
     prop_oneof![
-        4 => (-10.0f64..10.0),
+        4 => -10.0f64..10.0,
         2 => (any::<bool>(), -20.0f64..20.0).prop_map(|(n, e)| if n { -(10f64.powf(e)) } else { 10f64.powf(e) }),
         1 => Just(0.0f64),
         1 => Just(-0.0f64),
